@@ -422,6 +422,11 @@ package device
 //@   ensures [C14] sigs == old(sigs) + (if exits then 1 else 0)
 //@   ensures [C14] exits ==> outLen == old(outLen) && out == old(out) && d.octave == old(d.octave) && d.semitone == old(d.semitone) && d.channel == old(d.channel) && d.mapping == old(d.mapping) && d.ccLearning == old(d.ccLearning)
 //@   ensures [C14] exits ==> keys(d.noteTracker) == old(keys(d.noteTracker)) && keys(d.actionTracker) == old(keys(d.actionTracker)) && vals(d.actionTracker) == old(vals(d.actionTracker))
+// the action tracker says which action keys are held: the pair resets of C04 are decided from it, so it has to follow
+// every press and release of an action key exactly (also on the press that completes a pair)
+//@   ensures [C04] isAction && press && !exits ==> keys(d.actionTracker) == upd(old(keys(d.actionTracker)), action, true) && vals(d.actionTracker) == upd(old(vals(d.actionTracker)), action, true)
+//@   ensures [C04] isAction && !press ==> keys(d.actionTracker) == upd(old(keys(d.actionTracker)), action, false) && vals(d.actionTracker) == old(vals(d.actionTracker))
+//@   ensures [C04] !isAction ==> keys(d.actionTracker) == old(keys(d.actionTracker)) && vals(d.actionTracker) == old(vals(d.actionTracker))
 //@   ensures [C02] isAction && !(press && action == config.Panic) ==> outLen == old(outLen) && out == old(out)
 //@   ensures [C02] !press && !isAction && !tracked ==> outLen == old(outLen) && out == old(out)
 //@   ensures [C02] !press && !isAction && tracked ==> (outLen == old(outLen) && out == old(out)) || (outLen == old(outLen) + 1 && out == upd(old(out), old(outLen), mkev(0x80 | tc, tn, 0)))
@@ -476,6 +481,11 @@ package device
 //@   ensures [C16] locked == old(locked)
 //@   requires wf(d) && tableOK(d) && ie != nil && cfgRanges(d.config) && cfgDz(d.config) && lavOK(d.config, d.lastAnalogValue) && envAbs(d, ie)
 //@   ensures lavOK(d.config, d.lastAnalogValue)
+// an axis event is dropped only if its shaped position is EXACTLY the one last accepted; otherwise it is processed, which is
+// observable as a changed stored position. The clauses below speak about the processed event only; this one closes the gap
+// for a change that returns early: if the stored position is what it was, then the position just computed (the local
+// `value` at that return) equals it.
+//@   ensures [C06,C07,C08] local(analogOk) && d.lastAnalogValue[ie.Source.Name][ie.Event.Code] == old(d.lastAnalogValue[ie.Source.Name][ie.Event.Code]) ==> local(value) == old(d.lastAnalogValue[ie.Source.Name][ie.Event.Code])
 //@   cut load(.DeadzoneAtCenter) [C05,C06] !isNaN(value) && value >= -1.0 && value <= 1.0 && (!canBeNegative ==> value >= 0.0) && (canBeNegative <==> min < 0)
 //@   cut load(.DeadzoneAtCenter) [C06] (ie.Event.Value == max ==> value == 1.0) && (ie.Event.Value == min && min < 0 ==> value == -1.0) && (ie.Event.Value == 0 ==> value == 0.0)
 //@   cut load(.Deadzones) [C05,C06] !isNaN(value) && value >= -1.0 && value <= 1.0 && (!canBeNegative ==> value >= 0.0)
@@ -507,6 +517,13 @@ package device
 // (the cut facts above pin it to exactly +-1.0 at the physical end stops and 0.0 at rest, for every deadzone in [0,1)).
 //@   let isCC := has(d.config.KeyMappings[d.mapping].Analog[ie.Source.Name], ie.Event.Code) && a.MappingType == config.AnalogCC
 //@   let isPB := has(d.config.KeyMappings[d.mapping].Analog[ie.Source.Name], ie.Event.Code) && a.MappingType == config.AnalogPitchBend
+// every accepted position of a controller or pitch-bend axis IS transmitted (the clauses about what is sent are conditional
+// on something being sent): accepted = the stored position changed; the only exception is the learning gate
+//@   let lav0 := d.lastAnalogValue[ie.Source.Name][ie.Event.Code]
+//@   ensures [C06,C07] isCC && local(analogOk) && !(d.lastAnalogValue[ie.Source.Name][ie.Event.Code] == lav0) && !old(d.ccLearning) ==> outLen != old(outLen)
+//@   ensures [C06,C07] isCC && local(analogOk) && !(d.lastAnalogValue[ie.Source.Name][ie.Event.Code] == lav0) && (local(value) < -0.5 || local(value) > 0.5) ==> outLen != old(outLen)
+//@   ensures [C06] isPB && local(analogOk) && !(d.lastAnalogValue[ie.Source.Name][ie.Event.Code] == lav0) && !old(d.ccLearning) ==> outLen != old(outLen)
+//@   ensures [C06] isPB && local(analogOk) && !(d.lastAnalogValue[ie.Source.Name][ie.Event.Code] == lav0) && (local(value) < -0.5 || local(value) > 0.5) ==> outLen != old(outLen)
 //@   ensures [C06] isCC && !canBeNegative && !a.Bidirectional && outLen != old(outLen) ==> (local(value) == 1.0 ==> out[old(outLen)].b2 == 127) && (local(value) == 0.0 ==> out[old(outLen)].b2 == 0)
 //@   ensures [C06] isCC && canBeNegative && !a.Bidirectional && outLen != old(outLen) ==> (local(value) == 1.0 ==> out[old(outLen)].b2 == 127) && (local(value) == -1.0 ==> out[old(outLen)].b2 == 0) && (local(value) == 0.0 ==> out[old(outLen)].b2 == 63)
 //@   ensures [C06] isCC && canBeNegative && a.Bidirectional && outLen != old(outLen) ==> (local(value) == 1.0 || local(value) == -1.0 ==> out[old(outLen)].b2 == 127) && (local(value) == 0.0 ==> out[old(outLen)].b2 == 0)
